@@ -68,6 +68,12 @@ Theorem common_unit_is_the_finest : forall us : list Z, us <> [] ->
 Proof. exact common_unit_finest. Qed.
 Print Assumptions common_unit_is_the_finest.
 
+(* ---- file or URL: only a source that stat finds is read as a file ---- *)
+Theorem only_an_existing_file_is_read_as_a_file : forall st,
+  (route_of_stat st = RouteFile <-> st = StatOk) /\ (forall e, route_of_stat (StatOther e) = RouteURL).
+Proof. exact route_of_stat_spec. Qed.
+Print Assumptions only_an_existing_file_is_read_as_a_file.
+
 (* ---- how long an HTTP source may take and still be a fetched source ---- *)
 (* an explicit -timeout t gives the server t + 5 s; whatever the flags, the client waits at least 5 s
    longer than the timeout adjustURL settled on, and never less than 6 s *)
